@@ -207,6 +207,13 @@ func (ff *FuncFacts) nilEdges(phi *ssa.Phi, wantNil bool, seen map[*ssa.Phi]bool
 	for i, e := range phi.Edges {
 		pred := phi.Block().Preds[i]
 		if sub, isPhi := e.(*ssa.Phi); isPhi {
+			// what the edge itself says about the merged value comes first
+			if st := ff.edgeNilState(phi, i); st != 0 {
+				if (st == 1) == wantNil {
+					out = append(out, [2]*ssa.BasicBlock{pred, phi.Block()})
+				}
+				continue
+			}
 			es, ok := ff.nilEdges(sub, wantNil, seen)
 			if !ok {
 				return nil, false
@@ -696,6 +703,10 @@ func (ff *FuncFacts) webEdgesOf(f Fact) ([][2]*ssa.BasicBlock, bool) {
 // in extra) that tests a phi — the paths whose last entry into the phi's block
 // is an edge consistent with the fact.
 func (ff *FuncFacts) mustPass(a, b ssa.Instruction, extra []Fact) bool {
+	return ff.mustPassD(a, b, extra, 0)
+}
+
+func (ff *FuncFacts) mustPassD(a, b ssa.Instruction, extra []Fact, depth int) bool {
 	ab, bb := a.Block(), b.Block()
 	fn := ab.Parent()
 	if len(fn.Blocks) == 0 || ab == bb {
@@ -747,6 +758,10 @@ func (ff *FuncFacts) mustPass(a, b ssa.Instruction, extra []Fact) bool {
 					continue
 				}
 				if !reach(fn.Blocks[0], e[0], nil) {
+					continue
+				}
+				// the edge's source must itself be reachable on a feasible path that avoids a
+				if depth < 3 && len(e[0].Instrs) > 0 && e[0] != ab && ff.mustPassD(a, e[0].Instrs[len(e[0].Instrs)-1], nil, depth+1) {
 					continue
 				}
 				if e[1] == bb || reach(e[1], bb, e[1]) {
